@@ -750,6 +750,54 @@ func runStress(op M) any {
 			}(w)
 		}
 		wg.Wait()
+		// detection by file name: files of different formats whose paths differ in letter case only, or
+		// in the spelling of the directory, each asked about by several goroutines at once
+		if dir, err := os.MkdirTemp("", "verif-conc-sniff-"); err == nil {
+			defer os.RemoveAll(dir)
+			_ = os.MkdirAll(dir+"/Release", 0o755)
+			_ = os.MkdirAll(dir+"/release", 0o755)
+			pad := strings.Repeat(" ", 200000) // large enough for two detections to overlap
+			cdx := []byte(`{"bomFormat":"CycloneDX","specVersion":"1.4","version":1,` + pad + `"components":[]}`)
+			spdx := []byte(`{"spdxVersion":"SPDX-2.3",` + pad + `"SPDXID":"SPDXRef-DOCUMENT","name":"n"}`)
+			files := []struct {
+				path string
+				want string
+			}{{dir + "/Bom.json", string(formats.CDX14JSON)}, {dir + "/bom.json", string(formats.SPDX23JSON)},
+				{dir + "/Release/sbom.json", string(formats.SPDX23JSON)}, {dir + "/release/sbom.json", string(formats.CDX14JSON)}}
+			usable := true
+			for _, f := range files {
+				b := cdx
+				if f.want == string(formats.SPDX23JSON) {
+					b = spdx
+				}
+				if os.WriteFile(f.path, b, 0o644) != nil {
+					usable = false
+				}
+			}
+			for _, f := range files {
+				if got, err := (&formats.Sniffer{}).SniffFile(f.path); usable && (err != nil || string(got) != f.want) {
+					usable = false // a file system that folds case: the files are not independent
+				}
+			}
+			for w := 0; usable && w < 16; w++ {
+				wg.Add(1)
+				go func(w int) {
+					defer wg.Done()
+					sn := &formats.Sniffer{}
+					f := files[w%len(files)]
+					for i := 0; i < iters/15+3; i++ {
+						guard(v, "SniffFile", func() {
+							got, err := sn.SniffFile(f.path)
+							if err != nil || string(got) != f.want {
+								v.add("SniffFile(%s) next to detections of other files gives %q (%v), alone it gives %q", f.path[len(dir):], got, err, f.want)
+							}
+						})
+					}
+					count(iters/15 + 3)
+				}(w)
+			}
+			wg.Wait()
+		}
 		// independent documents written to different files of ONE directory at the same time, each read back
 		if dir, err := os.MkdirTemp("", "verif-conc-files-"); err == nil {
 			defer os.RemoveAll(dir)
